@@ -13,7 +13,7 @@ from vf.core import Reject, check_close, check_equal
 
 RULE = (
   "case = rich model (contacts on a plane, limits, equalities, tendons, actuators) x batch of 2-5 worlds with different qpos/qvel/ctrl/applied "
-  "forces/mocap x permutation x history of 1-6 steps with per-step control changes; oracle: every world's trajectory in the batch is bit-identical "
+  "forces/mocap/eq_active x permutation x history of 1-6 steps with per-step control changes; oracle: every world's trajectory in the batch is bit-identical "
   "(Newton+sparse: first step only, solver outputs to 2e-3 because its Hessian is accumulated in nworld-dependent atomic groups) to its solo (nworld=1) trajectory and to its trajectory in the permuted batch, incl. "
   "ne/nf/nl/nefc, contact multiset, solver_niter; evaluation = one (world, step); non-trivial = worlds differ in contact count and some world has nefc>0"
 )
@@ -71,7 +71,7 @@ def compare(rec, a, b, what, reassoc=False, **ctx):
       continue
     rec.notes["non_bitwise_fields"] += 1
     # position in the batch changes how the CPU loop is vectorised: ulp-level differences are legitimate round-off
-    tol = 2e-3 if (reassoc and k in _SOLVER_OUT) else (2e-4 if k in _SOLVER_OUT else 1e-5)
+    tol = 2e-3 if (reassoc and k in _SOLVER_OUT) else (2e-4 if k in _SOLVER_OUT else 1e-4)
     check_close(rec, k, a[k], b[k], tol, sig=f"{what}:{k}", **ctx)
 
 
@@ -85,6 +85,9 @@ def check(case, rec):
   n = case["nworld"]
   g = np.random.default_rng(case["state_seed"])
   states = [H.rand_state(mjm, case["state_seed"] + 101 * w, sigma=0.2 * (w % 3), vel=0.5 * w, applied=(w % 2 == 1)) for w in range(n)]
+  for w in range(n):
+    if mjm.neq:
+      states[w]["eq_active"] = g.uniform(size=mjm.neq) < 0.6  # equality activation is per-world state
   ctrls = [H.f32(g.normal(size=(n, mjm.nu))) for _ in range(case["nstep"])]
   perm = [int(x) for x in np.random.default_rng(case["perm_seed"]).permutation(n)]
   if perm == list(range(n)):
